@@ -6,6 +6,7 @@ import (
 	"fmt"
 	"os"
 
+	"verif/harness/flushenum"
 	"verif/harness/ribhist"
 	"verif/harness/sesshist"
 	"verif/report"
@@ -21,6 +22,7 @@ var runners = map[string]runner{
 	"C02": {"model_checking", ribhist.RunC02},
 	"C03": {"model_checking", ribhist.RunC03},
 	"C16": {"model_checking", ribhist.RunC16},
+	"C08": {"model_checking", flushenum.Run},
 	"C04": {"model_checking", sesshist.RunC04},
 	"C05": {"model_checking", sesshist.RunC05},
 	"C06": {"model_checking", sesshist.RunC06},
